@@ -46,6 +46,10 @@ ALPHA = [
     dict(category='mistakes', correct=1, muted=False),
     dict(category='instructor', valence=1),
     dict(via='give_partial', muted=False),
+    dict(category='runtime', message=''),
+    dict(category='instructor', message='', title='Blank'),
+    dict(category='algorithmic', message_template='{empty}', fields={'empty': ''}, message=None),
+    dict(category='instructor', unscored=True),
 ]
 
 # systematic cross of the attributes the verdict could (wrongly) depend on
